@@ -9,7 +9,7 @@ through the public API as well (sync and async SnmpSession.get / get_many agains
 layer of the mapping is judged by the same specification."""
 import json
 from vlib import env, tlc, trace, corpus, rawdrv, agent as ag, refcodec as rc, scripts, apiscripts
-from vlib.report import Check, confirm_by_replay
+from vlib.report import Check, confirm_by_replay, timing_event
 from vlib.env import ToolError, SEED
 from checks.c02 import one_case
 
@@ -127,7 +127,7 @@ def run(tier):
                    kinds="+".join(sorted({x["kind"] for x in e["vbs"]})), expected=e["get"] if info["op"] == "get" else e["many"],
                    got=ev.get("exc") or ev.get("res", {}).get("t"))
         chk.violation(sig, "%s on %s reply %s: expected %s got %s" % (info["op"], info["cfg"], json.dumps(e["vbs"]), sig["expected"], sig["got"]),
-                      dict(info=info, events=rec.events[a:idx + 1]), confirm=confirm_by_replay(replay, dict(info=info)) if "api" in info else None)
+                      dict(info=info, events=rec.events[a:idx + 1]), confirm=(confirm_by_replay(replay, dict(info=info)) if ("api" in info and timing_event(ev)) else None))
     chk.sample(dict(kind="table-entry", entry=entries[777]))
     chk.sample(dict(kind="events", events=rec.events[runs[9][0]:runs[9][1]][1:4]))
     # the table itself is part of the model-checking evidence: TLC evaluated the mapping assumptions over all entries
